@@ -11,11 +11,15 @@ LEVEL = {
 # scenarios: (scenario name, build, fraction of the scenario's case count[, extra env])
 CHECKS = {
     "C01": {
-        "scenarios": [("C01-tcp", "vsim"), ("C01-tcp", "vreal")],
+        "scenarios": [("C01-tcp", "vsim"), ("C01-tcp", "vreal"), ("C01-api", "vsim"), ("C01-api", "vreal", 0.5)],
         "rule": "cases drawn by a seeded generator over (sessions, multiplexing, chunk schedule per direction, "
                 "client/server traffic pattern, per-session write/read size sequences incl. boundary sizes); "
                 "a case is non-trivial if application bytes were compared; distinct = distinct hash of "
-                "(sessions, underlay actually shared, chunk schedules, pattern classes, boundary sizes hit)",
+                "(sessions, underlay actually shared, chunk schedules, pattern classes, boundary sizes hit); plus the same "
+                "generator through the embedding API (apis/client DialContext + apis/server Accept) in both handshake modes "
+                "(0-RTT: the client writes first and the request travels with the first write; standard: either side speaks "
+                "first), destinations in the three address forms, the request seen by the server application compared with "
+                "the one dialled",
         "technique": "runtime monitor: keyed position-identifying streams compared at both application ends + "
                      "independent reference decoder on the tapped wire, real stack on simulated network in virtual time",
         "text": "Every byte read at either end is compared against a keyed position-identifying stream, so loss, "
@@ -23,10 +27,10 @@ CHECKS = {
                 "held on the executions listed in the evidence, not proved.",
         "note": "trusted: simnet (in-memory network), the stream generator/comparator, Go runtime faketime mode",
         "design_ref": "DESIGN.md section 4, C01",
-        "min_obs": {"bytes_compared": 100000, "segments": 100},
+        "min_obs": {"bytes_compared": 100000, "segments": 100, "api_sessions": 20},
     },
     "C02": {
-        "scenarios": [("C02-udp", "vsim")],
+        "scenarios": [("C02-udp", "vsim"), ("C02-api", "vsim")],
         "rule": "fault plans over the decoded datagrams of real sessions: positional (one or two scripted rules: drop xN / duplicate / "
                 "delay of the open request, open response, data seq k (any or a specific retransmission), pure acks), random fair loss/"
                 "duplication/jitter per direction, and a window family (8 MB past a pausing reader); crossed with write patterns, MTU per "
@@ -273,7 +277,7 @@ CHECKS = {
         "min_obs": {"pdep_pext_pairs": 5000000, "codec_cases": 20000, "runs_with_bmi2": 1, "runs_portable_path": 1},
     },
     "C15": {
-        "scenarios": [("C15-close", "vsim"), ("C15-deadline", "vsim"), ("C15-wdeadline", "vsim"), ("C15-race", "vrace"), ("C01-tcp", "vrace", 0.15)],
+        "scenarios": [("C15-close", "vsim"), ("C15-deadline", "vsim"), ("C15-wdeadline", "vsim"), ("C15-api", "vsim"), ("C15-race", "vrace"), ("C01-tcp", "vrace", 0.15)],
         "races": True,
         "rule": "(a) 1-3 sessions (TCP multiplexed on one connection, or UDP) with a Read parked at each end of every session and, in a "
                 "third of the TCP cases, a writer parked behind back-pressure on 8 KiB pipes; after an idle period of 0/3/7/70/130 "
